@@ -143,6 +143,25 @@ func joinBucketPath(arr ...string) string {
 	return strings.Join(arr, bucketPathSep)
 }
 
+// bucketExists reports whether the bucket index entry key exists as seen from
+// inside tx: the stored entry overlaid with the puts and deletes pending in
+// the transaction's own batch.
+func (tx *transaction) bucketExists(key []byte) (bool, error) {
+	_, err := tx.l.ldb.Get(key, nil)
+	if err != nil && err != leveldb.ErrNotFound {
+		return false, err
+	}
+	exists := err == nil
+	if !tx.readOnly {
+		if v, deleted := tx.b.Get(key); deleted {
+			exists = false
+		} else if v != nil {
+			exists = true
+		}
+	}
+	return exists, nil
+}
+
 // Close
 // TODO: It is not safe to close a DB until all outstanding iterators are released.
 func (l *LevelDB) Close() error {
@@ -175,13 +194,7 @@ func (tx *transaction) TopLevelBucket(name string) db.Bucket {
 	bucketPath := joinBucketPath(topLevelBucketDepth, name)
 	key := []byte(joinBucketPath(bucketNameBucket, bucketPath))
 
-	_, err := tx.l.ldb.Get(key, nil)
-	if !tx.readOnly && err == leveldb.ErrNotFound {
-		if v, _ := tx.b.Get(key); v != nil {
-			err = nil
-		}
-	}
-	if err != nil {
+	if exists, err := tx.bucketExists(key); err != nil || !exists {
 		return nil
 	}
 	//TOCONFIRM: check value == name
@@ -260,13 +273,7 @@ func (tx *transaction) FetchBucket(meta db.BucketMeta) db.Bucket {
 		path := joinBucketPath(meta.Paths()...)
 		key := []byte(joinBucketPath(bucketNameBucket, path))
 
-		_, err := tx.l.ldb.Get(key, nil)
-		if !tx.readOnly && err == leveldb.ErrNotFound {
-			if v, _ := tx.b.Get(key); v != nil {
-				err = nil
-			}
-		}
-		if err != nil {
+		if exists, err := tx.bucketExists(key); err != nil || !exists {
 			return nil
 		}
 		//TOCONFIRM: check value == name
@@ -296,17 +303,12 @@ func (tx *transaction) CreateTopLevelBucket(name string) (db.Bucket, error) {
 	bucketPath := joinBucketPath(topLevelBucketDepth, name)
 	key := []byte(joinBucketPath(bucketNameBucket, bucketPath))
 
-	_, err := tx.l.ldb.Get(key, nil)
-	if err == nil {
-		_, deleted := tx.b.Get(key)
-		if !deleted {
-			return nil, db.ErrBucketExist
-		} else {
-			err = leveldb.ErrNotFound
-		}
-	}
-	if err != leveldb.ErrNotFound {
+	exists, err := tx.bucketExists(key)
+	if err != nil {
 		return nil, err
+	}
+	if exists {
+		return nil, db.ErrBucketExist
 	}
 
 	bucket := &levelBucket{
@@ -370,17 +372,12 @@ func (b *levelBucket) NewBucket(name string) (db.Bucket, error) {
 	}
 
 	key := []byte(joinBucketPath(bucketNameBucket, sub.path))
-	_, err = b.tx.l.ldb.Get(key, nil) // value == name
-	if err == nil {
-		_, deleted := b.tx.b.Get(key)
-		if !deleted {
-			return nil, db.ErrBucketExist
-		} else {
-			err = leveldb.ErrNotFound
-		}
-	}
-	if err != leveldb.ErrNotFound {
+	exists, err := b.tx.bucketExists(key) // value == name
+	if err != nil {
 		return nil, err
+	}
+	if exists {
+		return nil, db.ErrBucketExist
 	}
 	// if string(v) == name {
 	// 	return nil, ErrBucketExist
@@ -403,13 +400,7 @@ func (b *levelBucket) Bucket(name string) db.Bucket {
 
 	key := []byte(joinBucketPath(bucketNameBucket, sub.path))
 
-	_, err = b.tx.l.ldb.Get(key, nil)
-	if !b.tx.readOnly && err == leveldb.ErrNotFound {
-		if v, _ := b.tx.b.Get(key); v != nil {
-			err = nil
-		}
-	}
-	if err != nil {
+	if exists, err := b.tx.bucketExists(key); err != nil || !exists {
 		return nil
 	}
 	// if err != nil || string(value) != name {
